@@ -256,6 +256,115 @@ def feed_resp_seq(method, streams):
     return out
 
 
+def _mk_parser(side, buf, method="GET"):
+    from hio.core.http import serving, clienting
+    if side == "req":
+        return serving.Requestant(msg=buf, remoter=_Rem())
+    return clienting.Respondent(msg=buf, method=method)
+
+
+def _result(side, r):
+    return _req_result(r) if side == "req" else _resp_result(r)
+
+
+def feed_rebind(side, steps):
+    """ONE parser object re-used over several messages, re-bound between them through a public route.
+    steps: [(route, prefill, data, cuts)]; route: 'first' | 'makeParser-new' (makeParser(msg=new buffer)) | 'reinit-new'
+    (reinit(msg=new buffer) then makeParser()) | 'same-cleared' (the same buffer emptied, makeParser()) | 'makeParser-same'.
+    prefill: number of bytes of the message already in the new buffer at hand-over (0 = empty, the normal state of a new
+    connection).  -> per step (result or None, ended?, escaped class or None)"""
+    buf = bytearray()
+    r = _mk_parser(side, buf)
+    out = []
+    for route, prefill, data, cuts in steps:
+        pre = min(prefill, len(data))
+        try:
+            if route == "makeParser-new":
+                buf = bytearray(data[:pre])
+                r.makeParser(msg=buf)
+            elif route == "reinit-new":
+                buf = bytearray(data[:pre])
+                if side == "req":
+                    r.reinit(msg=buf, method=None)
+                else:
+                    r.reinit(msg=buf, method="GET")
+                r.makeParser()
+            elif route == "same-cleared":
+                del buf[:]
+                buf.extend(data[:pre])
+                r.makeParser()
+            elif route == "makeParser-same":
+                del buf[:]
+                buf.extend(data[:pre])
+                r.makeParser(msg=buf)
+            else:
+                buf.extend(data[:pre])
+            esc = None
+            frs = split_at(data[pre:], [c - pre for c in cuts if pre < c < len(data)])
+            res = None
+            for fr in ([b""] if pre else []) + frs:
+                buf.extend(fr)
+                r.parse()
+                if r.ended:
+                    break
+            if side == "resp" and not r.ended:
+                r.close()
+                r.parse()
+            if r.ended:
+                res = _result(side, r)
+            out.append((res, bool(r.ended), None))
+        except BaseException as ex:   # noqa
+            out.append((None, False, type(ex).__name__))
+            break
+    return out
+
+
+def feed_interleaved(side, parsers, order):
+    """several independent parser instances, their reads interleaved: parsers = [(data, cuts)], order = indices saying whose
+    next read is delivered (and parsed) next.  -> per parser (results, tail) as feed_req / feed_resp give, close at the end
+    for responses"""
+    bufs = [bytearray() for _ in parsers]
+    rs = [_mk_parser(side, b) for b in bufs]
+    frags = [split_at(d, c) for d, c in parsers]
+    pos = [0] * len(parsers)
+    outs = [[] for _ in parsers]
+    live = [True] * len(parsers)
+    esc = [None] * len(parsers)
+
+    def drive(i):
+        r = rs[i]
+        while live[i]:
+            try:
+                r.parse()
+            except BaseException as ex:   # noqa
+                esc[i] = type(ex).__name__
+                live[i] = False
+                return
+            if not r.ended:
+                return
+            outs[i].append(_result(side, r))
+            if r.errored or not r.persisted:
+                live[i] = False
+            else:
+                if side == "resp":
+                    r.reinit(method="GET")
+                r.makeParser()
+
+    for i in list(order) + [i for i in range(len(parsers)) for _ in range(len(frags[i]))]:
+        if i >= len(parsers) or pos[i] >= len(frags[i]):
+            continue
+        bufs[i].extend(frags[i][pos[i]])
+        pos[i] += 1
+        drive(i)
+    res = []
+    for i in range(len(parsers)):
+        if side == "resp" and live[i]:
+            rs[i].close()
+            drive(i)
+        res.append((outs[i], ("escaped", esc[i]) if esc[i] else ("live" if live[i] else "over", bytes(bufs[i]) if live[i] or not (outs[i] and outs[i][-1][0] == "err") else None)))
+    return res
+
+
 def feed_sse(chunks):
     """httping.EventSource on its own bytearray"""
     from hio.core.http import httping
@@ -339,9 +448,15 @@ class FakeSock:
         self.sent = bytearray()
         self.gate = False      # one fragment per tick
         self.closed = False
+        self.cap = None        # send capacity per service pass (None: unlimited; 0: would block)
+        self.fault = None      # ("recv" | "send", tick): that call raises OSError(EPIPE) from that tick on
+        self.ticks = 0
+        self.room = None
 
     def tick(self):
         self.gate = True
+        self.ticks += 1
+        self.room = self.cap
 
     def setblocking(self, _):
         pass
@@ -364,6 +479,8 @@ class FakeSock:
     def recv(self, n):
         if self.closed:
             raise OSError(errno.EBADF, "closed")
+        if self.fault and self.fault[0] == "recv" and self.ticks >= self.fault[1]:
+            raise OSError(errno.EPIPE, "Broken pipe")
         if self.gate:
             self.gate = False
             while self.frags and not self.frags[0]:
@@ -380,8 +497,17 @@ class FakeSock:
     def send(self, data):
         if self.closed:
             raise OSError(errno.EBADF, "closed")
-        self.sent.extend(data)
-        return len(data)
+        if self.fault and self.fault[0] == "send" and self.ticks >= self.fault[1]:
+            raise OSError(errno.EPIPE, "Broken pipe")
+        if self.room is None:
+            self.sent.extend(data)
+            return len(data)
+        if self.room <= 0:
+            raise BlockingIOError(errno.EAGAIN, "again")
+        n = min(len(data), self.room)
+        self.room -= n
+        self.sent.extend(data[:n])
+        return n
 
     def shutdown(self, how):
         pass
@@ -398,6 +524,10 @@ def _app(environ, start_response):
     if path.startswith('/httperror'):
         from hio.core.http import httping
         raise httping.HTTPError(400, title="no")
+    if path.startswith('/big'):
+        body = b"B" * 3000
+        start_response("200 OK", [('Content-Type', 'text/plain'), ('Content-Length', str(len(body)))])
+        return [body]
     if path.startswith('/iterraise'):
         def gen():
             start_response("200 OK", [('Content-Type', 'text/plain')])
@@ -431,13 +561,20 @@ def run_server(kind, conns, cycles=None, round2=None):
     else:
         srv = serving.BareServer(servant=servant)
     socks = []
-    for i, (frags, close_after) in enumerate(conns):
+    extra = 0
+    conns = [tuple(c) + (None, None)[:4 - len(c)] if len(c) < 4 else tuple(c) for c in conns]
+    for i, (frags, close_after, cap, fault) in enumerate(conns):
         ca = ('127.0.0.1', 40000 + i)
         s = FakeSock(frags, close_after, ca, ha)
+        s.cap, s.fault = cap, fault
+        if cap is not None:
+            extra = max(extra, 60 + (6000 // max(cap, 1) if cap <= 40 else 200))
         socks.append(s)
         servant.ixes[ca] = tcp.Remoter(ha=ha, ca=ca, cs=s, tymeout=0.0)
+    extra = min(extra, 700)
+    conns = [(f, cl) for f, cl, _, _ in conns]
     n = cycles if cycles is not None else max([len(f) for f, _ in conns] + [0]) + 4 * sum(
-        1 + sum(bytes(x).count(b"HTTP/") for x in f) for f, _ in conns) + 4
+        1 + sum(bytes(x).count(b"HTTP/") for x in f) for f, _ in conns) + 4 + extra
     esc = None
     serr = sys.stderr
     sys.stderr = io.StringIO()   # serviceReqs writes the error text of a malformed request there
@@ -540,7 +677,8 @@ def run_client(frags, close_after, scheme="http", redirectable=True, cycles=None
         tymist = tyming.Tymist(tock=1.0)
         kw = dict(reconnectable=True, tymeout=0.5) if reconnect else {}
         conn = Conn(ha=ha, tymth=tymist.tymen(), **kw)
-        cli = clienting.Client(connector=conn, redirectable=redirectable)
+        cli = clienting.Client(connector=conn, redirectable=redirectable, dictable=scheme.endswith("+dictable") or None)
+        scheme = scheme.split("+")[0]
         cli.reopen()
         if scheme == "https":
             cli.requester.scheme = "https"
@@ -565,7 +703,7 @@ def run_client(frags, close_after, scheme="http", redirectable=True, cycles=None
     return (esc, resps, nev)
 
 
-def run_client_seq(streams, cycles=None):
+def run_client_seq(streams, cycles=None, same=()):
     """the real Client over a SEQUENCE of connections: connection k delivers the reads streams[k] and then closes; the
     connector is reconnectable and virtual time advances one second per service pass, so the client reconnects (and
     re-requests with Last-Event-ID when it has one).  -> (escaped class or None, [events delivered during connection k],
@@ -585,7 +723,7 @@ def run_client_seq(streams, cycles=None):
             self.connected = False
             self.cutoff = False
             k = len(made)
-            fr, cl = (streams[k], True) if k < len(streams) else ([], False)
+            fr, cl = (streams[k], "same" if k < len(same) and same[k] else True) if k < len(streams) else ([], False)
             marks.append(len(events))
             self.cs = FakeSock(fr, cl, self.ha, ('127.0.0.1', 50000 + k))
             made.append(self.cs)
@@ -1058,7 +1196,12 @@ def mutate_bytes(rng, data, k=None):
 #   ("req",  data, cuts, expect|None)                 serving.Requestant, pipelined
 #   ("resp", head, data, cuts, closed, expect|None)   clienting.Respondent (+ far side closing)
 #   ("sse",  stream, cuts)                            httping.EventSource alone
+#   ("rebind", side, ((route, prefill, data, cuts), ...))  ONE Requestant / Respondent re-used over several messages, re-bound
+#                                                     to a new / emptied buffer through every public route, vs fresh parsers
+#   ("inter", side, ((data, cuts), ...), order)       independent parser instances whose reads are interleaved, vs each alone
 #   ("sses", stream, cuts)                            httping.EventSource through parseEventStream (BOM then events)
+#   ("srvc", kind, ((data, cuts, close, cap, fault), ...)) as srv, with a send capacity per service pass (responses stay
+#                                                     queued across passes) and / or a socket that raises EPIPE on recv / send
 #   ("srv2", kind, round1, round2)                    the same server object serving a second round of connections from the
 #                                                     same peer addresses after the first ones went away
 #   ("sser", mode, stream, sizes, cuts)               event stream inside a response: mode close | chunked
@@ -1135,6 +1278,10 @@ def case_data(case):
     k = case[0]
     if k == "sseq":
         return b"".join(sseq_wires(case))
+    if k == "rebind":
+        return b"".join(st[2] for st in case[2])
+    if k == "inter":
+        return b"".join(p[0] for p in case[2])
     if k in ("req", "sse", "sses", "chunks"):
         return case[1]
     if k == "resp":
@@ -1182,15 +1329,30 @@ def run_case(case):
     if k == "sse":
         fr = frags_of(case)
         return (feed_sse(fr), feed_sse([case[1]]))
+    if k == "rebind":      # ("rebind", side, ((route, prefill, data, cuts), ...)) : one parser re-used, vs a fresh parser per message
+        fresh = []
+        for route, prefill, data, cuts in case[2]:
+            fresh.append(feed_rebind(case[1], [("first", 0, data, cuts)])[0])
+        return (feed_rebind(case[1], list(case[2])), fresh)
+    if k == "inter":       # ("inter", side, ((data, cuts), ...), order) : independent parsers interleaved read by read, vs each alone
+        return (feed_interleaved(case[1], list(case[2]), case[3]),
+                [feed_interleaved(case[1], [p], ())[0] for p in case[2]])
     if k == "sses":
         return (feed_sse_stream(frags_of(case)), feed_sse_stream([case[1]]))
+    if k == "srvc":      # connections with a send capacity per pass and / or a socket fault
+        conns = [(split_at(d, c), cl, cap, fault) for d, c, cl, cap, fault in case[2]]
+        multi = run_server(case[1], conns)
+        alone = [run_server(case[1], [c]) for c in conns] if len(conns) > 1 else [multi]
+        return (multi, alone)
     if k == "srv2":
         r1 = [(split_at(d, c), cl) for d, c, cl in case[2]]
         r2 = [(split_at(d, c), cl) for d, c, cl in case[3]]
         return (run_server(case[1], r1, round2=r2), run_server(case[1], r2))
     if k == "sseq":
-        return (feed_resp_seq("GET", sseq_frags(case)), feed_resp_seq("GET", [[w] for w in sseq_wires(case)]),
-                run_client_seq(sseq_frags(case)))
+        ws = sseq_wires(case)
+        same = [(len(w) + i) % 2 == 0 for i, w in enumerate(ws)]      # where the end of stream falls: with the last read or a pass later
+        return (feed_resp_seq("GET", sseq_frags(case)), feed_resp_seq("GET", [[w] for w in ws]),
+                run_client_seq(sseq_frags(case), same=same), run_client_seq(sseq_frags(case), same=[not x for x in same]))
     if k == "pack":
         d = case_data(case)
         return (d, feed_chunks(split_at(d, case[2])), feed_chunks([d]))
@@ -1228,8 +1390,13 @@ def request_of(case):
         return ("resp", False, frags_of(case), case[1] == "close")
     if k == "sse":
         return ("sse", frags_of(case))
+    if k in ("rebind", "inter"):
+        return ("echo", k)          # re-use / interleaving of parser OBJECTS is not a notion of the model: oracle only
     if k == "sses":
         return ("sses", frags_of(case))
+    if k == "srvc":
+        alld = b" ".join(c[0] for c in case[2])
+        return ("srv", case[1], [(split_at(c[0], c[1]), True) for c in case[2]], bad_urls(alld))      # escaped class only
     if k == "srv2":
         alld = b" ".join(d for d, _, _ in case[3])
         return ("srv", case[1], [(split_at(d, c), True) for d, c, _ in case[3]], bad_urls(alld))     # escaped class only
@@ -1278,8 +1445,13 @@ def view_of(case, obs):
         return (multi[0],)
     if k in ("cli", "clir", "clid"):
         return (obs[0][0],)
+    if k in ("rebind", "inter"):
+        return k
     if k == "sses":
         return ("waiting", "waiting") if len(case[1]) < 3 else obs
+    if k == "srvc":
+        esc = obs[0][0]
+        return (esc, [(None, None)] * len(case[2])) if case[1] == "wsgi" else (esc,)
     if k == "srv2":
         esc = obs[0][0]
         return (esc, [(None, None)] * len(case[3])) if case[1] == "wsgi" else (esc,)
@@ -1374,6 +1546,43 @@ def _shrink_case(case):
                 yield (k, ps[:i] + (ps[i][:-1],) + ps[i + 1:], ())
             if len(ps[i]) > 1:
                 yield (k, ps[:i] + (ps[i][:len(ps[i]) // 2],) + ps[i + 1:], ())
+    elif k == "rebind":
+        _, side, steps = case
+        for i in range(len(steps)):
+            if len(steps) > 1:
+                yield (k, side, steps[:i] + steps[i + 1:])
+        for i, (route, pre, data, cuts) in enumerate(steps):
+            if cuts:
+                yield (k, side, steps[:i] + ((route, pre, data, ()),) + steps[i + 1:])
+            if pre:
+                yield (k, side, steps[:i] + ((route, 0, data, cuts),) + steps[i + 1:])
+    elif k == "inter":
+        _, side, ps, order = case
+        for i in range(len(ps)):
+            if len(ps) > 2:
+                yield (k, side, ps[:i] + ps[i + 1:], tuple(x if x < i else x - 1 for x in order if x != i))
+        if len(order) > 1:
+            yield (k, side, ps, order[:len(order) // 2])
+            yield (k, side, ps, order[1:])
+    elif k == "srvc":
+        _, kind, conns = case
+        for i in range(len(conns)):
+            if len(conns) > 1:
+                yield (k, kind, conns[:i] + conns[i + 1:])
+        for i, (d, c, cl, cap, fault) in enumerate(conns):
+            if c:
+                yield (k, kind, conns[:i] + ((d, (), cl, cap, fault),) + conns[i + 1:])
+            if fault is not None:
+                yield (k, kind, conns[:i] + ((d, c, cl, cap, None),) + conns[i + 1:])
+            if cap is not None:
+                yield (k, kind, conns[:i] + ((d, c, cl, None, fault),) + conns[i + 1:])
+            n = len(d)
+            if n > 1:
+                for a, b in ((n // 2, n), (0, n // 2)):
+                    yield (k, kind, conns[:i] + ((d[:a] + d[b:], (), cl, cap, fault),) + conns[i + 1:])
+            if n <= 120:
+                for j in range(n):
+                    yield (k, kind, conns[:i] + ((d[:j] + d[j + 1:], (), cl, cap, fault),) + conns[i + 1:])
     elif k == "srv2":
         _, kind, r1, r2 = case
         for i in range(len(r1)):
